@@ -85,6 +85,7 @@ type UFDecl struct {
 }
 
 type Contracts struct {
+	Ghosts map[string]string // global ghost variables: name -> Go type
 	UFs    map[string]*UFDecl
 	Funcs  map[string]*FuncContract
 	Specs  map[string]*SpecFunc
@@ -95,7 +96,7 @@ type Contracts struct {
 	Text   string
 }
 
-var headerKW = map[string]bool{"uf": true, "func": true, "interface": true, "extern": true, "model": true, "spec": true, "lemma": true, "axiom": true}
+var headerKW = map[string]bool{"ghostvar": true, "uf": true, "func": true, "interface": true, "extern": true, "model": true, "spec": true, "lemma": true, "axiom": true}
 var clauseKW = map[string]bool{"observe": true, "requires": true, "ensures": true, "modifies": true, "safe": true, "trusted": true, "loop": true, "at": true, "crash_invariant": true, "fresh": true}
 
 type rawItem struct {
@@ -112,7 +113,7 @@ func parseContractsFile(path string) (*Contracts, error) {
 }
 
 func parseContracts(text string) (c *Contracts, err error) {
-	c = &Contracts{UFs: map[string]*UFDecl{}, Funcs: map[string]*FuncContract{}, Specs: map[string]*SpecFunc{}, Models: map[string]*Model{}, Lemmas: map[string]*Lemma{}, Text: text}
+	c = &Contracts{Ghosts: map[string]string{}, UFs: map[string]*UFDecl{}, Funcs: map[string]*FuncContract{}, Specs: map[string]*SpecFunc{}, Models: map[string]*Model{}, Lemmas: map[string]*Lemma{}, Text: text}
 	defer func() {
 		if r := recover(); r != nil {
 			if pe, ok := r.(parseErr); ok {
@@ -166,6 +167,13 @@ func parseContracts(text string) (c *Contracts, err error) {
 			c.Funcs[fc.Key] = fc
 			c.Order = append(c.Order, fc.Key)
 			cur, curLemma = fc, nil
+		case "ghostvar":
+			n, t := splitFirst(rest)
+			if n == "" || t == "" {
+				panic(parseErr(fmt.Sprintf("line %d: ghostvar name type", it.line)))
+			}
+			c.Ghosts[n] = t
+			cur, curLemma = nil, nil
 		case "uf":
 			m := ufRe.FindStringSubmatch(rest)
 			if m == nil {
